@@ -55,7 +55,9 @@ static void Viol(const std::string & key, const std::string & detail) { if (g_ca
 static std::atomic<const void *> g_trkObj(NULL);     // the mutex under test (NULL = tracker off)
 static std::atomic<uint32_t> g_parkR[MAXT];          // odd while thread t is parked as reader
 static std::atomic<int> g_parkWFlag[MAXT];
-static std::atomic<int> g_nParkedW(0);
+static std::atomic<int> g_nParkedW(0), g_nUntimedParkedW(0);   // parked writers; those whose call has no deadline (they leave the table only by being admitted)
+static std::atomic<int> g_callUntimed[MAXT];          // set by thread t itself before a LockReadWrite() without deadline (read by the same thread inside the hook)
+static std::atomic<int> g_parkWUntimed[MAXT];
 static std::atomic<uint32_t> g_wParkEvents(0);
 static std::atomic<uint32_t> g_evGen(0);             // futex word: bumped whenever a parked reader leaves the table or a writer parks
 static void TrackerHook(int site, const void * obj, long arg)
@@ -67,8 +69,8 @@ static void TrackerHook(int site, const void * obj, long arg)
          switch (site) {
          case MVH_RW_READER_PARKED: g_parkR[t].fetch_add(1, std::memory_order_relaxed); break;
          case MVH_RW_READER_ADMITTED: case MVH_RW_READER_TIMEDOUT: if (g_parkR[t].load(std::memory_order_relaxed) & 1) { g_parkR[t].fetch_add(1, std::memory_order_relaxed); bump = true; } break;
-         case MVH_RW_WRITER_PARKED: g_parkWFlag[t].store(1, std::memory_order_relaxed); g_nParkedW.fetch_add(1, std::memory_order_relaxed); g_wParkEvents.fetch_add(1, std::memory_order_release); bump = true; break;
-         case MVH_RW_WRITER_ADMITTED: case MVH_RW_WRITER_TIMEDOUT: if (g_parkWFlag[t].load(std::memory_order_relaxed)) { g_parkWFlag[t].store(0, std::memory_order_relaxed); g_nParkedW.fetch_sub(1, std::memory_order_relaxed); } break;
+         case MVH_RW_WRITER_PARKED: g_parkWFlag[t].store(1, std::memory_order_relaxed); g_nParkedW.fetch_add(1, std::memory_order_relaxed); if (g_callUntimed[t].load(std::memory_order_relaxed)) { g_parkWUntimed[t].store(1, std::memory_order_relaxed); g_nUntimedParkedW.fetch_add(1, std::memory_order_relaxed); } g_wParkEvents.fetch_add(1, std::memory_order_release); bump = true; break;
+         case MVH_RW_WRITER_ADMITTED: case MVH_RW_WRITER_TIMEDOUT: if (g_parkWFlag[t].load(std::memory_order_relaxed)) { g_parkWFlag[t].store(0, std::memory_order_relaxed); g_nParkedW.fetch_sub(1, std::memory_order_relaxed); if (g_parkWUntimed[t].load(std::memory_order_relaxed)) { g_parkWUntimed[t].store(0, std::memory_order_relaxed); g_nUntimedParkedW.fetch_sub(1, std::memory_order_relaxed); } } break;
          default: break;
          }
          if (bump) { g_evGen.fetch_add(1, std::memory_order_release); FutexWakeAll(&g_evGen); }
@@ -76,11 +78,11 @@ static void TrackerHook(int site, const void * obj, long arg)
    }
    hookrt::hook(site, obj, arg);
 }
-static void TrackerReset(const void * obj) { for (int t = 0; t < MAXT; t++) { g_parkR[t].store(0); g_parkWFlag[t].store(0); } g_nParkedW.store(0); g_wParkEvents.store(0); g_evGen.store(0); g_trkObj.store(obj); }
+static void TrackerReset(const void * obj) { for (int t = 0; t < MAXT; t++) { g_parkR[t].store(0); g_parkWFlag[t].store(0); g_callUntimed[t].store(0); g_parkWUntimed[t].store(0); } g_nParkedW.store(0); g_nUntimedParkedW.store(0); g_wParkEvents.store(0); g_evGen.store(0); g_trkObj.store(obj); }
 
 struct Mark { uint64_t seq; uint8_t end, op, ok, upgrade; int toKind; };   // toKind: 0 try, 1 timed, 2 untimed
 struct TStat {
-   long acqR, acqW, recR, recW, upg, upgTry, upgTimed, upgUntimed, upgFail, failTry, failTimed, overlapRR, holdWaits, holdScans, badUnlocks, unlocks, downgrades, pastDeadline, failBeforeDeadline, maxOver, maxOverUpg, dgParked, rvWaits, rvAdmitted, rvAbandoned, rvSkippedW, rvMulti, readFirst, dgDeepW, dgDeepR;
+   long acqR, acqW, recR, recW, upg, upgTry, upgTimed, upgUntimed, upgFail, failTry, failTimed, overlapRR, holdWaits, holdScans, badUnlocks, unlocks, downgrades, pastDeadline, failBeforeDeadline, maxOver, maxOverUpg, dgParked, rvWaits, rvAdmitted, rvAbandoned, rvSkippedW, rvMulti, readFirst, dgDeepW, dgDeepR, plainParked, plainWaits, rvAfterWriterLeft;
    TStat() { memset(this, 0, sizeof(*this)); }
 };
 struct Th {
@@ -122,11 +124,13 @@ static uint64 PickTimeout(vh::Rng & r, int & kind)
    }
 }
 
-// Called by a thread that has just released its LAST write lock while keeping a read lock (wEv0 / nW0 = writer-park event count and
-// number of parked writers read BEFORE that UnlockReadWrite()).  From that moment no thread holds the write lock and none can get it
-// while this thread keeps reading, so every reader that parked because of the write holder must be let in -- unless, under writer
-// preference, a writer is (or becomes) parked: then nothing is demanded and the wait is abandoned.  The wait has no timeout.
-static void RendezvousAfterDowngrade(Th * th, uint32_t wEv0, int nW0)
+// Called by a thread that holds read locks only (just after releasing its LAST write lock = downgrade, or at a random moment).  While
+// this thread keeps reading nobody can hold the write lock, so the only thing that may legitimately keep a parked reader out is writer
+// preference with a writer in the waiting table.  A parked writer whose call has a deadline leaves the table by that deadline (it cannot
+// be admitted while we read) and the mutex must then let the readers in (F58, repaired in /repo e4aa529); a parked writer WITHOUT a
+// deadline stays for as long as we read, so then nothing is demanded and the wait is abandoned.  The wait has no timeout: a parked
+// reader that is never woken is a proved deadlock.
+static void WaitForParkedReaders(Th * th, bool afterDowngrade)
 {
    TStat & st = th->st; const bool pW = th->pW;
    int who[MAXT]; uint32_t val[MAXT]; int n = 0;
@@ -135,14 +139,16 @@ static void RendezvousAfterDowngrade(Th * th, uint32_t wEv0, int nW0)
       if (v & 1) { who[n] = t; val[n] = v; n++; }
    }
    if (n == 0) return;
-   st.dgParked++;
-   if (pW && (nW0 > 0 || g_nParkedW.load(std::memory_order_relaxed) > 0 || g_wParkEvents.load(std::memory_order_acquire) != wEv0)) { st.rvSkippedW++; return; }
-   st.rvWaits++; if (n > 1) st.rvMulti++;
+   if (afterDowngrade) st.dgParked++; else st.plainParked++;
+   if (pW && g_nUntimedParkedW.load(std::memory_order_relaxed) > 0) { st.rvSkippedW++; return; }
+   if (afterDowngrade) st.rvWaits++; else st.plainWaits++;
+   if (n > 1) st.rvMulti++;
+   bool sawWriter = false;
    for (int i = 0; i < n; i++) {
       for (;;) {
          const uint32_t g0 = g_evGen.load(std::memory_order_acquire);
-         if (g_parkR[who[i]].load(std::memory_order_relaxed) != val[i]) { st.rvAdmitted++; break; }
-         if (pW && g_wParkEvents.load(std::memory_order_acquire) != wEv0) { st.rvAbandoned++; return; }
+         if (g_parkR[who[i]].load(std::memory_order_relaxed) != val[i]) { st.rvAdmitted++; if (sawWriter) st.rvAfterWriterLeft++; break; }
+         if (pW) { if (g_nUntimedParkedW.load(std::memory_order_relaxed) > 0) { st.rvAbandoned++; return; } if (g_nParkedW.load(std::memory_order_relaxed) > 0) sawWriter = true; }
          FutexWait(&g_evGen, g0);
       }
    }
@@ -184,6 +190,7 @@ static void Script(Th * th)
          if (isUp) { g_upg[me].store(1, std::memory_order_relaxed); st.upg++; if (tk == 0) st.upgTry++; else if (tk == 1) st.upgTimed++; else st.upgUntimed++; }
          PushMark(th, false, OP_LRW, false, isUp, tk);
          if (waitable) g_pend[me].fetch_add(1, std::memory_order_relaxed);
+         g_callUntimed[me].store(tk == 2, std::memory_order_relaxed);
          const uint64 t0 = GetRunTime64(); const status_t s = m->LockReadWrite(to); const uint64 t1 = GetRunTime64();
          if (waitable) { g_pend[me].fetch_add(1, std::memory_order_relaxed); FutexWakeAll(&g_pend[me]); }
          PushMark(th, true, OP_LRW, s.IsOK(), isUp, tk);
@@ -201,10 +208,9 @@ static void Script(Th * th)
       else if (c >= 8 && c <= 11 && myW > 0) {                                            // ---- release write (a downgrade when read locks stay)
          g_wr[me].fetch_sub(1, std::memory_order_relaxed); myW--; st.unlocks++;
          const bool downgrade = (myW == 0 && myR > 0); if (downgrade) { st.downgrades++; if (myR > 1) st.dgDeepR++; }
-         const uint32_t wEv0 = g_wParkEvents.load(std::memory_order_acquire); const int nW0 = g_nParkedW.load(std::memory_order_relaxed);
          PushMark(th, false, OP_URW, false, false, 2); const status_t s = m->UnlockReadWrite(); PushMark(th, true, OP_URW, s.IsOK(), false, 2);
          if (s.IsError()) Viol("api|unlock-failed-while-holding", vh::fmt("thread %d: UnlockReadWrite() returned %s with write depth %d, read depth %d before the call | %s", me, s(), myW + 1, myR, th->params.c_str()));
-         else if (downgrade && r.R(8) != 0) RendezvousAfterDowngrade(th, wEv0, nW0);
+         else if (downgrade && r.R(8) != 0) WaitForParkedReaders(th, true);
       }
       else if (c >= 12 && c <= 15 && myR > 0) {                                          // ---- release read
          g_rd[me].fetch_sub(1, std::memory_order_relaxed); myR--; st.unlocks++; if (myR == 0 && myW > 0) { st.readFirst++; if (myW > 1) st.dgDeepW++; }
@@ -225,6 +231,7 @@ static void Script(Th * th)
             if (v & 1) { st.holdWaits++; while (g_pend[p].load(std::memory_order_relaxed) == v) FutexWait(&g_pend[p], v); break; }
          }
       }
+      else if (c == 18 && !th->f24b && myW == 0 && myR > 0) WaitForParkedReaders(th, false);   // ---- a plain reader waits for the parked readers to join it
       else Spin(r);
    }
 }
@@ -379,7 +386,7 @@ static void RunCase(long k, uint64_t cs, bool f24b)
    delete m;
 
    // ---- observation counters
-   TStat s; for (int t = 0; t < nT; t++) { const TStat & x = th[t].st; s.acqR += x.acqR; s.acqW += x.acqW; s.recR += x.recR; s.recW += x.recW; s.upg += x.upg; s.upgTry += x.upgTry; s.upgTimed += x.upgTimed; s.upgUntimed += x.upgUntimed; s.upgFail += x.upgFail; s.failTry += x.failTry; s.failTimed += x.failTimed; s.overlapRR += x.overlapRR; s.holdWaits += x.holdWaits; s.holdScans += x.holdScans; s.badUnlocks += x.badUnlocks; s.unlocks += x.unlocks; s.downgrades += x.downgrades; s.pastDeadline += x.pastDeadline; s.failBeforeDeadline += x.failBeforeDeadline; s.dgParked += x.dgParked; s.rvWaits += x.rvWaits; s.rvAdmitted += x.rvAdmitted; s.rvAbandoned += x.rvAbandoned; s.rvSkippedW += x.rvSkippedW; s.rvMulti += x.rvMulti; s.readFirst += x.readFirst; s.dgDeepW += x.dgDeepW; s.dgDeepR += x.dgDeepR; if (x.maxOver > s.maxOver) s.maxOver = x.maxOver; if (x.maxOverUpg > s.maxOverUpg) s.maxOverUpg = x.maxOverUpg; }
+   TStat s; for (int t = 0; t < nT; t++) { const TStat & x = th[t].st; s.acqR += x.acqR; s.acqW += x.acqW; s.recR += x.recR; s.recW += x.recW; s.upg += x.upg; s.upgTry += x.upgTry; s.upgTimed += x.upgTimed; s.upgUntimed += x.upgUntimed; s.upgFail += x.upgFail; s.failTry += x.failTry; s.failTimed += x.failTimed; s.overlapRR += x.overlapRR; s.holdWaits += x.holdWaits; s.holdScans += x.holdScans; s.badUnlocks += x.badUnlocks; s.unlocks += x.unlocks; s.downgrades += x.downgrades; s.pastDeadline += x.pastDeadline; s.failBeforeDeadline += x.failBeforeDeadline; s.dgParked += x.dgParked; s.rvWaits += x.rvWaits; s.rvAdmitted += x.rvAdmitted; s.rvAbandoned += x.rvAbandoned; s.rvSkippedW += x.rvSkippedW; s.rvMulti += x.rvMulti; s.readFirst += x.readFirst; s.dgDeepW += x.dgDeepW; s.dgDeepR += x.dgDeepR; s.plainParked += x.plainParked; s.plainWaits += x.plainWaits; s.rvAfterWriterLeft += x.rvAfterWriterLeft; if (x.maxOver > s.maxOver) s.maxOver = x.maxOver; if (x.maxOverUpg > s.maxOverUpg) s.maxOverUpg = x.maxOverUpg; }
    vh::stat("scripts", nT); vh::stat(pW ? "cases_prefer_writers" : "cases_prefer_readers"); vh::stat(vh::fmt("cases_threads_%d", nT)); vh::stat("pl_" + plName);
    vh::stat("acq_read", s.acqR); vh::stat("acq_write", s.acqW); vh::stat("acq_read_recursive", s.recR); vh::stat("acq_write_recursive", s.recW);
    vh::stat("upgrade_calls", s.upg); vh::stat("upgrade_calls_try", s.upgTry); vh::stat("upgrade_calls_timed", s.upgTimed); vh::stat("upgrade_calls_untimed", s.upgUntimed); vh::stat("upgrade_calls_failed", s.upgFail);
@@ -387,8 +394,9 @@ static void RunCase(long k, uint64_t cs, bool f24b)
    vh::stat("refused_unlocks_without_holding", s.badUnlocks); vh::stat("unlocks", s.unlocks); vh::stat("downgrade_by_unlocking_write_first", s.downgrades); vh::stat("downgrade_keeping_read_depth_over_1", s.dgDeepR);
    vh::stat("both_held_read_released_first", s.readFirst); vh::stat("both_held_read_released_first_write_depth_over_1", s.dgDeepW);
    vh::stat("downgrades_with_parked_reader", s.dgParked); vh::stat("rendezvous_waits_after_downgrade", s.rvWaits); vh::stat("rendezvous_with_several_parked_readers", s.rvMulti);
-   vh::stat("readers_admitted_after_partial_release", s.rvAdmitted); vh::stat("rendezvous_abandoned_writer_parked", s.rvAbandoned); vh::stat("rendezvous_not_demanded_writer_parked", s.rvSkippedW);
-   vh::stat(pW ? "rendezvous_waits_prefer_writers" : "rendezvous_waits_prefer_readers", s.rvWaits);
+   vh::stat("readers_admitted_after_partial_release", s.rvAdmitted); vh::stat("rendezvous_abandoned_untimed_writer_parked", s.rvAbandoned); vh::stat("rendezvous_not_demanded_untimed_writer_parked", s.rvSkippedW);
+   vh::stat(pW ? "rendezvous_waits_prefer_writers" : "rendezvous_waits_prefer_readers", s.rvWaits + s.plainWaits);
+   vh::stat("plain_reader_saw_parked_reader", s.plainParked); vh::stat("plain_reader_waits_for_parked_readers", s.plainWaits); vh::stat("readers_admitted_after_parked_writer_timed_out", s.rvAfterWriterLeft);
    vh::stat("timed_failed_returned_past_deadline", s.pastDeadline); vh::stat("unspecified_timed_failed_returned_before_deadline", s.failBeforeDeadline);
    vh::statmax("max_overshoot_us", s.maxOver); vh::statmax("max_overshoot_timed_upgrade_us", s.maxOverUpg);
    if (replayed) {
